@@ -257,11 +257,20 @@ func (g *Graph) edgeEntails(e Edge, lits []AtomWant) bool {
 	if f == nil {
 		return false
 	}
-	onTrue := e.Succ == 0
+	return g.formEntails(f, e.Succ == 0, lits, e)
+}
+
+// ExprEntails: the boolean expression e having value truth establishes the clause (boolean locals unfolded,
+// multiply-assigned flags constrained by their definitions) — used for `return <expr>` of predicates.
+func (g *Graph) ExprEntails(e ast.Expr, truth bool, lits ...AtomWant) bool {
+	return g.formEntails(g.formulaOf(e), truth, lits, Edge{})
+}
+
+func (g *Graph) formEntails(f *bform, onTrue bool, lits []AtomWant, e Edge) bool {
 	var ls []*bform
 	f.leaves(&ls)
 	if os.Getenv("PSCHECK_DEBUG_ENTAIL") != "" {
-		fmt.Fprintf(os.Stderr, "entail %s block %d succ %d: %d leaves, %d sides\n", g.F.Name, e.From.Index, e.Succ, len(ls), len(f.side))
+		fmt.Fprintf(os.Stderr, "entail %s: %d leaves, %d sides\n", g.F.Name, len(ls), len(f.side))
 		for _, l := range ls {
 			fmt.Fprintf(os.Stderr, "   leaf key=%s neg=%v\n", l.key, l.neg)
 		}
